@@ -214,6 +214,33 @@ pub fn run(cfg: &Cfg, rep: &mut Report) {
             expect_class(ctx, "push_byte into ArrayVec<u8,0>", "buffer-exhausted", r.err().map(|e| e.get_code()), false);
         }
         {
+            // channel numbers: well-formed digits whose value the target cannot hold are value faults too
+            use scpi::parser::expression::channel_list::{ChannelList, Token as CTok};
+            fn first_spec<'a>(text: &'a [u8]) -> Option<scpi::parser::expression::channel_list::ChannelSpec<'a>> {
+                match ChannelList::new(text)?.next()? {
+                    Ok(CTok::ChannelSpec(s)) => Some(s),
+                    _ => None,
+                }
+            }
+            let huge = format!("@{}{}", 1 + rng.usize(9), "9".repeat(19 + rng.usize(10)));
+            if let Some(sp) = first_spec(huge.as_bytes()) {
+                let r: Result<isize, Error> = sp.try_into();
+                expect_class(ctx, "channel number beyond isize converted to isize", "out-of-range", r.err().map(|e| e.get_code()), false);
+            } else {
+                ctx.count("SELFCHECK-FAILED.channel-spec-not-yielded");
+            }
+            let neg = format!("@-{}", 1 + rng.usize(500));
+            if let Some(sp) = first_spec(neg.as_bytes()) {
+                let r: Result<usize, Error> = sp.try_into();
+                expect_class(ctx, "negative channel number converted to usize", "out-of-range", r.err().map(|e| e.get_code()), false);
+            }
+            let neg2 = format!("@{}!-{}", rng.usize(50), 1 + rng.usize(500));
+            if let Some(sp) = first_spec(neg2.as_bytes()) {
+                let r: Result<(usize, usize), Error> = sp.try_into();
+                expect_class(ctx, "negative channel number converted to (usize, usize)", "out-of-range", r.err().map(|e| e.get_code()), false);
+            }
+        }
+        {
             use scpi_contrib::scpi1999::NumericValue;
             let r = NumericValue::Value(11i32).finish_with(10, 0);
             expect_class(ctx, "numeric_value 11 resolved against [0,10]", "out-of-range", r.err().map(|e| e.get_code()), false);
